@@ -83,6 +83,45 @@ CLAIMED["C15"] = ("Unbounded proof of the reference accounting primitives: FileR
   "Exact accounting across shared mappings/files (SegmentLocs.AddRef/DecRef over possibly shared mmapRefs) is trusted, as are Unmap/Close/Remove; per-function balance of persist/compact/"
   "snapshotPrevious is not under contract yet; footer trees assumed to be trees (ghost depth). Fixed findings S12, S17.", "6/C15")
 
+CLAIMED["C01"] = ("Unbounded proof of the per-step legs of 'reads reflect the executed batches': (a) the read path - segment.Get/findKeyPos, segmentStack.get/getMerged/Get - equals the reference "
+  "read of the stack (newest entry decides, Del hides, empty value is a non-nil empty slice: loadBasicSegment gives a loaded segment a non-nil buf); (b) every state change of the "
+  "collection keeps that read unchanged or adds exactly the batch: ExecuteBatch installs top ++ [batch segment] in one critical section and drops the cached snapshot, the merger "
+  "callback moves the already merged stack to mid and empties top, mergerNotifyPersister and the persister only move sections between slots; sections stay well-formed sorted stacks "
+  "(lock invariant).",
+  "The whole-history statement (every history x schedule equals a reference map) is the composition of these steps and is NOT machine-checked as one theorem: collection.snapshot's "
+  "concatenation of the sections has a thin contract (call-site obligations only), merge()/mergeInto content equivalence (merged segment == stack it replaces) and the heap iterator are not "
+  "under contract, batches with DeferredSort are excluded by precondition. Fixed finding S5.", "6/C01")
+CLAIMED["C02"] = ("Unbounded proof of the mechanisms that keep a snapshot frozen: buildStackDirtyTop (every ExecuteBatch) builds a FRESH stack with a fresh segment array and copies the old "
+  "entries (copy-on-write: the stack a snapshot holds is never written), Store.snapshot adds exactly one count to the footer it returns, Footer.DecRef releases segment locations and child "
+  "footers only when the count reaches zero, counts above zero keep file, mapping and locations (with C15).",
+  "Not under contract: collection.snapshot's copying of the section pointers (thin contract), iterator stability, the mmap layer (munmap only at refcount zero is proved in mmapRef.DecRef "
+  "under C15; the OS keeping an unlinked mapped file readable is assumed). The whole-history statement is not machine-checked as one theorem. Fixed findings S12, S17.", "6/C02")
+CLAIMED["C03"] = ("Unbounded proof, for every interleaving at lock granularity (guarded fields are havocked at every acquire, the lock invariant is all that is known): ExecuteBatch publishes "
+  "a batch in exactly one critical section - the new top is old top ++ [batch segment] with all child segments in the same new stack, cached snapshot dropped, other sections untouched - and "
+  "publishes nothing on its early-exit paths; Snapshot() reads all sections inside one critical section and changes none; the merger callback swaps mid/top in the same critical section; "
+  "every access to a guarded field is proved to happen with collection.m held.",
+  "Order within one writer follows from ExecuteBatch being synchronous (not a contract). The prefix-monotonicity statement over successive snapshots is a consequence of the region "
+  "contracts argued in DESIGN.md, not a machine-checked theorem; child-collection installation is proved at the stack level (buildStackDirtyTop loops), not per key.", "6/C03")
+CLAIMED["C04"] = ("Unbounded proof of the layout and load legs: page arithmetic (pageAlignCeil/Floor/pageOffset, exact), buildNewFooter carries every old location plus one per persisted "
+  "segment and every child footer, loadBasicSegment views exactly the byte ranges a location names (lengths, offsets, totals; non-nil buf for empty key/value bytes).",
+  "Not under contract: persistBasicSegment/persistHeader writing the bytes the location later names (goroutine/channel protocol), ReadFooter/loadSegments/JSON round trip (trusted external), "
+  "the prefix statement for an early Close (persister schedule). Reopen equality is therefore decided only as far as these legs reach. Fixed finding S5.", "6/C04")
+CLAIMED["C08"] = ("Unbounded proof for point reads and the iterator's Current: segmentStack.get/getMerged fold the operands from the newest level down - each operand applied exactly once over "
+  "the value of the levels strictly below (or base, or lower level) - against the recursive reference stackRead; iteratorSingle.Current and iterator.Current/CurrentEx resolve a Merge entry "
+  "by the same read strictly below the entry's level with the configured operator.",
+  "MergeOperator.FullMerge is an uninterpreted deterministic function (any operator, commutative or not). Not under contract: mergeInto/compaction resolving or preserving operands when "
+  "segments are merged (needs the heap iterator contract), reopen. Known finding S7 (Collection.Get vs sections) is reported under C10.", "6/C08")
+CLAIMED["C13"] = ("Unbounded proof of the hand-over protocol at lock granularity: mergerNotifyPersister moves mid into base only when base is empty, in one critical section, signalling the "
+  "persister, and never overwrites a base that is still being persisted; runPersister offers exactly stackDirtyBase to LowerLevelUpdate, on success installs the returned snapshot and "
+  "clears base in one critical section (CachePersisted: moves it to clean), on failure keeps base so the same stack is offered again.",
+  "Not under contract: that the stack offered contains exactly the not-yet-persisted mutations in order (needs merge() content equivalence), the documented consumer protocol (iterate with "
+  "deletions, resolve merges with Get), and liveness (drains eventually). LowerLevelUpdate is an unknown callback assumed not to re-enter the collection.", "6/C13")
+CLAIMED["C16"] = ("Unbounded proof of the safety half: lock invariant 'at most MaxPreMergerBatches segments in top' holds at every release of collection.m in every function under contract; "
+  "after Close, NewBatch/Snapshot/Get/ExecuteBatch(non-empty) return ErrClosed; Close closes stopCh and broadcasts both condition variables inside the critical section; the merger callback "
+  "and ResetStackDirtyTop wake blocked writers whenever they make room; ExecuteBatch's wait loop re-checks closed after every wake-up; every function releases the lock on every path.",
+  "The liveness half (calls return in bounded time) is outside this family: proved are the wake-up obligations (no missed signal at the points where room is made), not termination of "
+  "waiting. Channel-based notification (pingMergerCh, awakePersisterCh) is abstracted. Fixed finding S18.", "6/C16")
+
 NA_REASONS = {
  "C17": "data-race freedom in the Go memory model is a whole-program property over every access (incl. runtime, mmap-go, ghistogram); no contract within reach of a "
         "sequential VC generator decides it (DESIGN.md section 7)",
